@@ -439,6 +439,7 @@ def _part2(ctx):
         import opalg_stacks as S
 
         S.model_tie(ctx, env, om, ctx.n(40, 1200))
+        S.stackx_tie(ctx, env, om, ctx.n(30, 800))
         S.freeze_tie(ctx, env, om, ctx.n(60, 1500))
         S.drep_tie(ctx, env, om, ctx.n(50, 1200))
     finally:
